@@ -16,7 +16,9 @@ import (
 	"sync"
 	"time"
 
+	"github.com/99designs/gqlgen/graphql"
 	"github.com/99designs/gqlgen/graphql/executor"
+	"github.com/99designs/gqlgen/graphql/handler/apollotracing"
 	"github.com/99designs/gqlgen/graphql/handler/extension"
 	"github.com/vektah/gqlparser/v2/ast"
 
@@ -58,11 +60,23 @@ func main() {
 	type srvT struct {
 		env *univ.Env
 		srv *drive.Server
+		// traced: the same schema behind a server with the Apollo tracing extension, whose field
+		// interceptor records every resolver into one per-request list from all field goroutines
+		traced *drive.Server
 	}
 	servers := map[string]*srvT{}
 	for _, n := range names {
 		env := univ.Bind(registry.Probes[n]())
-		servers[n] = &srvT{env, drive.NewServer(env)}
+		tr := drive.NewServer(env)
+		tr.Exec.Use(apollotracing.Tracer{})
+		// ... and with a field interceptor that looks at the errors of its field afterwards, as
+		// logging / tracing middleware does
+		tr.Exec.AroundFields(func(ctx context.Context, next graphql.Resolver) (any, error) {
+			res, err := next(ctx)
+			_ = graphql.GetFieldErrors(ctx, graphql.GetFieldContext(ctx))
+			return res, err
+		})
+		servers[n] = &srvT{env, drive.NewServer(env), tr}
 	}
 	var evals int64
 	var mu sync.Mutex
@@ -163,6 +177,21 @@ func main() {
 								rep.Violate("", map[string]any{"case": cid, "why": fmt.Sprintf("%d resolver invocations registered a response extension each (concurrently), the response carries %d", len(rs), nExt)})
 							} else if len(rs) > 1 {
 								rep.Count("runs_with_all_concurrently_registered_extensions_present", 1)
+							}
+							if sm == 1 && kind == ast.Query {
+								// same case with the tracing extension installed: same data and errors, every
+								// resolver of the operation recorded by the tracer (and no race while it does)
+								pt := base
+								pt.SchedMode = sm
+								ot := diffrun.Compare(context.Background(), s.env, s.traced, doc, op.Query, op.OpName, vars, &pt, &univ.Run{Plan: &pt}, 30*time.Second)
+								mu.Lock()
+								evals++
+								mu.Unlock()
+								if ot.Mismatch != "" && ot.Mismatch != "timeout" {
+									rep.Violate("", map[string]any{"case": cid, "why": "with the Apollo tracing extension installed: " + ot.Mismatch + " differ from the reference: " + ot.Detail})
+								} else {
+									rep.Count("runs_with_apollo_tracing", 1)
+								}
 							}
 							rep.Count("resolver_events", int64(len(rs)))
 							rep.Count("errors_in_responses", int64(len(o.Want.Errors)))
